@@ -166,6 +166,9 @@ def run_source_case(case: dict) -> dict:
         # creation order is the reverse of the sorted order
         patterns = []
         files = s["dcf"]
+        # a file that is LISTED TWICE (the same path again, or a second pattern that matches it again) is read twice:
+        # the model emits such listings as three entries whose third equals the first
+        repeat = len(files) == 3 and bool(files[0]) and files[2] == files[0]
         i = 0
         glob_first_two = len(files) >= 2 and variant % 2 == 1
         if glob_first_two:
@@ -175,7 +178,11 @@ def run_source_case(case: dict) -> dict:
                     json.dump(cfg_obj(asgs, kinds, dotted=variant % 3 == 1), fh)
             patterns.append(os.path.join(tmp, "conf.d", "*.json"))
             i = 2
+        first_path = os.path.join(tmp, "conf.d", "10-first.json") if glob_first_two else os.path.join(tmp, "dcf_z.json")
         for j in range(i, len(files)):
+            if repeat and j == 2:
+                patterns.append(first_path)   # the first file once more (overlapping pattern / repeated entry)
+                continue
             # names are NOT in lexicographic order of their position: the listed order must win, not a global sort
             f = os.path.join(tmp, f"dcf_{chr(ord('z') - j)}.json")
             with open(f, "w") as fh:
